@@ -79,6 +79,10 @@ pub enum Signal {
     /// the Noise sequence scaled by 2^-26 (peak 1.5e-8): a valid, very quiet signal; everything
     /// the resamplers do is linear, so nothing may depend on the absolute level
     NoiseQuiet,
+    /// the Noise sequence scaled by 2^-120 (peak 7.5e-37): every sample is a normal f32, most
+    /// products with a filter coefficient are not; gradual underflow keeps the f32 result within
+    /// a few 2^-23 of the peak, a flush-to-zero mode does not
+    NoiseTiny,
     /// the Noise sequence of channel `ch + offset`, with NaN in every 7th sample of the LAST
     /// channel `last` (only used on multi-channel objects: the other channels must not notice)
     NoisePoisonLast(usize),
@@ -112,6 +116,7 @@ impl Signal {
             Signal::Zero => 0.0,
             Signal::NoiseCh(off) => Signal::Noise.at(ch + off, n),
             Signal::NoiseQuiet => Signal::Noise.at(ch, n) * (2.0f64).powi(-26),
+            Signal::NoiseTiny => Signal::Noise.at(ch, n) * (2.0f64).powi(-120),
             Signal::NoiseSubnormalCh(off) => Signal::Noise.at(ch + off, n) * (2.0f64).powi(-1040),
             Signal::Trivial(off, period) => match (ch + off) % 4 {
                 0 => {
@@ -315,7 +320,7 @@ pub fn install_panic_hook() {
     }));
 }
 
-fn take_panic() -> String {
+pub fn take_panic() -> String {
     LAST_PANIC
         .with(|p| p.borrow_mut().take())
         .unwrap_or_else(|| "<unknown panic>".into())
@@ -447,7 +452,7 @@ impl<T: Flt> Runner<T> {
         }
 
         let res: Res = match op {
-            Op::P | Op::Px | Op::PM(_, _) | Op::PP(_) | Op::PPM(_, _, _) => {
+            Op::P | Op::Px | Op::Pa | Op::PM(_, _) | Op::PP(_) | Op::PPM(_, _, _) => {
                 // ---- build arguments
                 let (mask_bits, empty_inactive) = match op {
                     Op::PM(m, e) => (Some(m), e),
@@ -464,9 +469,14 @@ impl<T: Flt> Runner<T> {
                 let exact = matches!(op, Op::Px);
                 let mut tmp_in: Vec<Vec<T>>;
                 let mut tmp_out: Vec<Vec<T>>;
+                let shared: Vec<T> = if op == Op::Pa {
+                    (0..before.in_max).map(|i| T::from64(Signal::Noise.at(0, self.pos + i))).collect()
+                } else {
+                    Vec::new()
+                };
                 let (inref, outref): (&mut Vec<Vec<T>>, &mut Vec<Vec<T>>) = if exact
                     || mask_bits.is_some()
-                    || matches!(op, Op::PP(_))
+                    || matches!(op, Op::PP(_) | Op::Pa)
                 {
                     let in_frames = match op {
                         Op::Px => before.in_next,
@@ -525,6 +535,10 @@ impl<T: Flt> Runner<T> {
                     }
                     Op::PP(Some(_)) | Op::PPM(_, _, _) => {
                         r.process_partial_into_buffer(Some(&inref[..]), outref, mask_opt)
+                    }
+                    Op::Pa => {
+                        let refs: Vec<&[T]> = (0..nch).map(|_| &shared[..]).collect();
+                        r.process_into_buffer(&refs[..], outref, mask_opt)
                     }
                     _ => r.process_into_buffer(&inref[..], outref, mask_opt),
                 }));
@@ -635,6 +649,24 @@ impl<T: Flt> Runner<T> {
                     Bad::InShort(c, how) => {
                         let k = short(before.in_next, how);
                         tmp_in[c as usize].truncate(k);
+                    }
+                    Bad::AllOffOutChans(d) => {
+                        for i in 0..nch {
+                            tmp_in[i] = Vec::new();
+                            tmp_out[i] = Vec::new();
+                        }
+                        active = vec![false; nch];
+                        mask = Some(vec![false; nch]);
+                        tmp_out.resize(adj(nch, d), Vec::new());
+                    }
+                    Bad::AllOffInChans(d) => {
+                        for i in 0..nch {
+                            tmp_in[i] = Vec::new();
+                            tmp_out[i] = Vec::new();
+                        }
+                        active = vec![false; nch];
+                        mask = Some(vec![false; nch]);
+                        tmp_in.resize(adj(nch, d), Vec::new());
                     }
                     Bad::InShortBoth => {
                         tmp_in[0].truncate(short(before.in_next, 1));
